@@ -687,20 +687,20 @@ Proof.
   rewrite <- L. apply nth_error_Some. congruence.
 Qed.
 
-Lemma encode_at_sem tbl vol wx wy wz ox oy oz gx gy gz sbs b :
+Lemma encode_gen_sem ao tbl vol wx wy wz ox oy oz gx gy gz sbs b :
   gather vol wx wy ox oy oz gx gy gz = Ok sbs ->
-  encode_at tbl vol wx wy wz ox oy oz gx gy gz = Ok b ->
+  encode_gen ao tbl vol wx wy wz ox oy oz gx gy gz = Ok b ->
   b_gx b = gx /\ b_gy b = gy /\ b_gz b = gz /\ b_labels b = tbl /\
   ((exists l, tbl = [l] /\ b = solid_block l gx gy gz) \/
-   ((forall l, tbl <> [l]) /\ N.odd (gx * gy * gz) = false /\
+   ((forall l, tbl <> [l]) /\ (ao = true -> N.odd (gx * gy * gz) = false) /\
     Sem tbl (b_nsb b) (b_idx b) (b_vals b) sbs)).
 Proof.
-  intros G E. unfold encode_at in E.
+  intros G E. unfold encode_gen in E.
   destruct (negb (size_checks wx wy wz ox oy oz gx gy gz)); [discriminate|].
   rewrite G in E.
   destruct (gather_lengths _ _ _ _ _ _ _ _ _ _ G) as [_ HF].
   assert (General : forall (Hne : forall l, tbl <> [l]),
-    (if N.odd (gx * gy * gz) then Err
+    (if ao && N.odd (gx * gy * gz) then Err
      else match mapO (fun e => mapO (fun l => index_of l tbl) (se_tbl e)) (map enc_sb sbs) with
           | Some idxs => Ok {| b_gx := gx; b_gy := gy; b_gz := gz; b_labels := tbl;
                                b_nsb := map (fun e => N.of_nat (length (se_tbl e))) (map enc_sb sbs);
@@ -708,15 +708,28 @@ Proof.
           | None => Err end) = Ok b ->
     b_gx b = gx /\ b_gy b = gy /\ b_gz b = gz /\ b_labels b = tbl /\
     ((exists l, tbl = [l] /\ b = solid_block l gx gy gz) \/
-     ((forall l, tbl <> [l]) /\ N.odd (gx * gy * gz) = false /\ Sem tbl (b_nsb b) (b_idx b) (b_vals b) sbs))).
-  { intros Hne E'. destruct (N.odd (gx * gy * gz)) eqn:O; [discriminate|].
+     ((forall l, tbl <> [l]) /\ (ao = true -> N.odd (gx * gy * gz) = false) /\ Sem tbl (b_nsb b) (b_idx b) (b_vals b) sbs))).
+  { intros Hne E'. destruct (ao && N.odd (gx * gy * gz)) eqn:O; [discriminate|].
     destruct (mapO _ (map enc_sb sbs)) as [idxs|] eqn:M; [|discriminate].
-    apply Ok_inj in E'. subst b. cbn. repeat split. right. repeat split; try assumption.
-    now apply encs_sem. }
+    apply Ok_inj in E'. subst b. cbn. repeat split. right. split; [exact Hne|]. split.
+    - intro Ha. subst ao. exact O.
+    - now apply encs_sem. }
   destruct tbl as [|l1 [|l2 tbl']].
   - apply General; [intros l H; discriminate | exact E].
   - apply Ok_inj in E. subst b. cbn. repeat split. left. eauto.
   - apply General; [intros l H; discriminate | exact E].
+Qed.
+
+Lemma encode_at_sem tbl vol wx wy wz ox oy oz gx gy gz sbs b :
+  gather vol wx wy ox oy oz gx gy gz = Ok sbs ->
+  encode_at tbl vol wx wy wz ox oy oz gx gy gz = Ok b ->
+  b_gx b = gx /\ b_gy b = gy /\ b_gz b = gz /\ b_labels b = tbl /\
+  ((exists l, tbl = [l] /\ b = solid_block l gx gy gz) \/
+   ((forall l, tbl <> [l]) /\ Sem tbl (b_nsb b) (b_idx b) (b_vals b) sbs)).
+Proof.
+  intros G E. destruct (encode_gen_sem false _ _ _ _ _ _ _ _ _ _ _ _ _ G E) as [A [B [C [D [H|[H1 [_ H2]]]]]]].
+  - repeat split; try assumption. now left.
+  - repeat split; try assumption. right. split; assumption.
 Qed.
 
 Lemma sbs_nonempty gx gy gz (sbs : list (list N)) :
@@ -738,14 +751,14 @@ Proof.
   destruct (assemble_gather _ _ _ _ _ _ _ _ _ _ G) as [a [A1 [A2 [A3 A4]]]].
   destruct (gather_lengths _ _ _ _ _ _ _ _ _ _ G) as [GL HF].
   exists a. split; [exact A2|].
-  destruct Cases as [[l [Et Eb]] | [Hne [Hodd S]]].
+  destruct Cases as [[l [Et Eb]] | [Hne S]].
   - subst b tbl. unfold decode. cbn.
     f_equal. symmetry. apply all_eq_repeat; [exact A3|].
     intros v Hv. specialize (C v (A4 v Hv)). destruct C as [C|[]]. now symmetry.
   - unfold decode. rewrite El.
     destruct tbl as [|l1 [|l2 tbl']].
     + exfalso. assert (0 < gx * gy * gz).
-      { unfold encode_at in E.
+      { unfold encode_at, encode_gen in E.
         destruct (size_checks wx wy wz ox oy oz gx gy gz) eqn:SC; [|discriminate].
         unfold size_checks in SC. rewrite !andb_true_iff in SC.
         destruct SC as [[[_ C2] _] _]. apply negb_true_iff in C2.
@@ -771,7 +784,7 @@ Theorem decode_encode tbl a gx gy gz b :
 Proof.
   intros L C E. unfold encode in E.
   assert (exists sbs, gather a (8 * gx) (8 * gy) 0 0 0 gx gy gz = Ok sbs) as [sbs G].
-  { unfold encode_at in E.
+  { unfold encode_at, encode_gen in E.
     destruct (negb (size_checks _ _ _ _ _ _ _ _ _)); [discriminate|].
     destruct (gather a (8 * gx) (8 * gy) 0 0 0 gx gy gz) as [sbs| |]; [eauto|discriminate|discriminate]. }
   destruct (assemble_gather _ _ _ _ _ _ _ _ _ _ G) as [a' [_ [A2 [_ A4]]]].
@@ -832,20 +845,18 @@ Proof.
   exists (b :: r). simpl. now rewrite Hb, Hr.
 Qed.
 
-(* legal geometry, every label in the table: the encoder returns a block unless the number of
-   sub-blocks is odd and the table has more than one label *)
+(* legal geometry, every label in the table: the (repaired) encoder returns a block *)
 Theorem encode_at_ok tbl vol wx wy wz ox oy oz gx gy gz :
   length vol = N.to_nat (wx * wy * wz) -> wx * wy * wz < 4294967295 ->
   2 <= gx <= 128 -> 2 <= gy <= 128 -> 2 <= gz <= 128 ->
   ox + 8 * gx <= wx -> oy + 8 * gy <= wy -> oz + 8 * gz <= wz ->
   exists sbs, gather vol wx wy ox oy oz gx gy gz = Ok sbs /\
-    (covers tbl sbs -> N.odd (gx * gy * gz) = false \/ (exists l, tbl = [l]) ->
-     exists b, encode_at tbl vol wx wy wz ox oy oz gx gy gz = Ok b).
+    (covers tbl sbs -> exists b, encode_at tbl vol wx wy wz ox oy oz gx gy gz = Ok b).
 Proof.
   intros L Hv Gx Gy Gz Hx Hy Hz.
   destruct (gather_ok vol wx wy wz ox oy oz gx gy gz L Hx Hy Hz ltac:(lia) ltac:(lia)) as [sbs G].
-  exists sbs. split; [exact G|]. intros C Hodd.
-  unfold encode_at.
+  exists sbs. split; [exact G|]. intros C.
+  unfold encode_at, encode_gen.
   assert (SC : size_checks wx wy wz ox oy oz gx gy gz = true).
   { unfold size_checks. rewrite !andb_true_iff, !negb_true_iff, !orb_false_iff.
     change n_MaxSubBlockSize with 128.
@@ -856,26 +867,23 @@ Proof.
     apply mapO_total. intros l Hl. unfold enc_sb in Hl. cbn [se_tbl] in Hl.
     destruct (sb_table_props vox) as [_ [_ Inc]]. apply Inc in Hl.
     apply index_of_In. apply C. apply in_concat. exists vox. split; assumption. }
-  destruct M as [idxs M].
-  destruct tbl as [|l1 [|l2 tbl']].
-  - destruct Hodd as [O|[l El]]; [|discriminate]. rewrite O, M. eauto.
-  - eauto.
-  - destruct Hodd as [O|[l El]]; [|discriminate]. rewrite O, M. eauto.
+  destruct M as [idxs M]. cbn [andb].
+  destruct tbl as [|l1 [|l2 tbl']]; [rewrite M; eauto | eauto | rewrite M; eauto].
 Qed.
 
 (* the defect: with an odd number of sub-blocks and a table of two or more labels no block is
    ever returned *)
 Theorem encode_odd_refused tbl vol wx wy wz ox oy oz gx gy gz :
   N.odd (gx * gy * gz) = true -> (forall l, tbl <> [l]) ->
-  forall b, encode_at tbl vol wx wy wz ox oy oz gx gy gz <> Ok b.
+  forall b, encode_at_asfound tbl vol wx wy wz ox oy oz gx gy gz <> Ok b.
 Proof.
   intros O Hne b E.
   assert (exists sbs, gather vol wx wy ox oy oz gx gy gz = Ok sbs) as [sbs G].
-  { unfold encode_at in E. destruct (negb (size_checks _ _ _ _ _ _ _ _ _)); [discriminate|].
+  { unfold encode_at_asfound, encode_gen in E. destruct (negb (size_checks _ _ _ _ _ _ _ _ _)); [discriminate|].
     destruct (gather vol wx wy ox oy oz gx gy gz) as [sbs| |]; [eauto|discriminate|discriminate]. }
-  destruct (encode_at_sem _ _ _ _ _ _ _ _ _ _ _ _ _ G E) as [_ [_ [_ [_ [[l [El _]]|[_ [O' _]]]]]]].
+  destruct (encode_gen_sem true _ _ _ _ _ _ _ _ _ _ _ _ _ G E) as [_ [_ [_ [_ [[l [El _]]|[_ [O' _]]]]]]].
   - exact (Hne l El).
-  - congruence.
+  - rewrite (O' eq_refl) in O. discriminate.
 Qed.
 
 (* ---------------- point views: Value and GetPointLabels ---------------- *)
@@ -998,7 +1006,7 @@ Proof.
   destruct (encode_at_sem _ _ _ _ _ _ _ _ _ _ _ _ _ G E) as [Ex [Ey [Ez [El Cases]]]].
   destruct (gather_point _ _ _ _ _ _ _ _ _ _ x y z G Hx Hy Hz) as [vox [v [V1 [V2 [V3 V4]]]]].
   exists v. split; [exact V3|].
-  destruct Cases as [[l [Et Eb]] | [Hne [_ S]]].
+  destruct Cases as [[l [Et Eb]] | [Hne S]].
   - subst b tbl. specialize (C v V4). destruct C as [C|[]]. subst v.
     unfold value_at, point_label, solid_block. cbn [b_gx b_gy b_gz b_labels].
     replace ((8 * gx <=? x) || (8 * gy <=? y) || (8 * gz <=? z)) with false
